@@ -30,13 +30,13 @@ func init() {
 	register(&Rule{ID: "C12.f", Doc: "every parsed poryswitch case is recorded under its own name, whatever its content", Floor: 5, Run: c12f})
 	register(&Rule{ID: "C13.e", Doc: "no decision depends on how many tokens a substituted value was written with", Floor: 1, Run: c13e})
 	register(&Rule{ID: "C12.g", Doc: "a list poryswitch case body ends at its own closing brace, whatever closes the enclosing list", Floor: 2, Run: c12g})
-	register(&Rule{ID: "C12.a", Doc: "selection protocol: value key if present else '_', comma-ok presence, error under environment errors", Floor: 8, Run: c12a})
+	register(&Rule{ID: "C12.a", Doc: "selection protocol: value key if present else '_', comma-ok presence, error under environment errors", Floor: 10, Run: c12a})
 	register(&Rule{ID: "C12.b", Doc: "poryswitch header: value from compileSwitches[ident]; environment errors only in normal mode", Floor: 3, Run: c12b})
 	register(&Rule{ID: "C12.c", Doc: "case parsing writes only token window, scope stacks, font cache", Floor: 3, Run: c12c})
 	register(&Rule{ID: "C12.d", Doc: "-s option splits at the first '='", Floor: 1, Run: c12d})
-	register(&Rule{ID: "C12.e", Doc: "colon-form cases take exactly one item: the item loop only repeats when multiple items are allowed", Floor: 3, Run: c12e})
-	register(&Rule{ID: "C13.a", Doc: "accumulated token literals pass through tryReplaceWithConstant", Floor: 12, Run: c13a})
-	register(&Rule{ID: "C13.b", Doc: "names and movement steps are never constant-substituted", Floor: 8, Run: c13b})
+	register(&Rule{ID: "C12.e", Doc: "colon-form cases take exactly one item: the item loop only repeats when multiple items are allowed", Floor: 6, Run: c12e})
+	register(&Rule{ID: "C13.a", Doc: "accumulated token literals pass through tryReplaceWithConstant", Floor: 24, Run: c13a})
+	register(&Rule{ID: "C13.b", Doc: "names and movement steps are never constant-substituted", Floor: 14, Run: c13b})
 	register(&Rule{ID: "C13.c", Doc: "constant definition: scan stops at top-level keywords", Floor: 2, Run: c13c})
 	register(&Rule{ID: "C13.d", Doc: "tryReplaceWithConstant is a pure lookup", Floor: 1, Run: c13d})
 	register(&Rule{ID: "C14.a", Doc: "movement multiplier interval and expansion", Floor: 4, Run: c14a})
